@@ -114,6 +114,25 @@ Check C10_state_at_cut : forall like (hs : list hold_row),
        = map (fun h : hold_row => (s_sh (snd (fst h)), s_acb (snd (fst h)))) hs.
 Print Assumptions C10_state_at_cut.
 
+(* (3) Later rows are reproduced from equivalent states: if the full history
+   processes the later rows from a ledger state s1 without error and none of
+   the reported rows went through the superficial-loss rule (no later sale at
+   a loss), then from ANY state s2 that agrees with s1 on every affiliate's
+   shares and cost base and on the total holding - whatever rows came before -
+   exactly the same rows are reported.  (What is missing for the full
+   statement outside the classes: later sales at a loss, i.e. that their
+   30-day window scans see the same acquisitions and end-of-window holdings.) *)
+Theorem C10_later_rows_reproduced : forall rows bef1 bef2 s1 s2 ds,
+  st_equiv s1 s2 ->
+  run_loop exact bef1 s1 rows = (ds, None) -> Forall quiet_delta ds ->
+  run_loop exact bef2 s2 rows = (ds, None).
+Proof. exact later_rows_reproduced. Qed.
+Check C10_later_rows_reproduced : forall rows bef1 bef2 s1 s2 ds,
+  st_equiv s1 s2 ->
+  run_loop exact bef1 s1 rows = (ds, None) -> Forall quiet_delta ds ->
+  run_loop exact bef2 s2 rows = (ds, None).
+Print Assumptions C10_later_rows_reproduced.
+
 (* ------------------------------------------------------------------ C10_annual_gains
    Annual mode: a generated 1-share sale at (per-share cost + gain) with
    commission [loss] out of a holding whose cost base is per-share cost x
@@ -144,7 +163,7 @@ Print Assumptions C10_annual_gains.
    C10_state_at_cut *)
 Definition ex_reg : aff := {| af_id := 1001; af_reg := true; af_dflt := true |}.
 Definition ex_hs : list hold_row := [
-  (default_aff, {| s_sh := wq 73 10; s_all := wq 0 1; s_acb := Some (wq 1001 7) |}, 737060%Z);
+  (default_aff, {| s_sh := wq 73 10; s_all := wq 0 1; s_acb := Some (wq 1001 8) |}, 737060%Z);
   (ex_reg, {| s_sh := wq 5 1; s_all := wq 0 1; s_acb := None |}, 737100%Z);
   (spouse_aff, {| s_sh := wq 1 3; s_all := wq 0 1; s_acb := Some (wq 0 1) |}, 737050%Z)].
 Example C10_nonvacuous :
@@ -154,6 +173,23 @@ Example C10_nonvacuous :
    /\ K_zero_balance_acb exact wit1_date wit1_far = false)
   /\ (map (fun d => (s_sh (d_post d), s_acb (d_post d)))
           (fst (run exact None (map (hold_tx (wrow 0 0 (wbuy 1 1) default_aff)) ex_hs)))
-      = [(wq 73 10, Some (wq 1001 7)); (wq 5 1, None); (wq 1 3, Some (wq 0 1))]
+      = [(wq 73 10, Some (wq 1001 8)); (wq 5 1, None); (wq 1 3, Some (wq 0 1))]
       /\ snd (run exact None (map (hold_tx (wrow 0 0 (wbuy 1 1) default_aff)) ex_hs)) = None).
 Proof. split; [exact wit1_far_ok|]. vm_compute. split; reflexivity. Qed.
+
+(* the hypotheses of C10_later_rows_reproduced are satisfiable: a purchase and
+   a sale at a gain from two states that differ in what they remember (one
+   knows the holder through an earlier row with another total) *)
+Definition ex_s1 : pstate :=
+  {| ps_map := [(default_id, {| s_sh := wq 10 1; s_all := wq 10 1; s_acb := Some (wq 100 1) |})];
+     ps_all := wq 10 1; ps_latest := default_aff |}.
+Definition ex_s2 : pstate :=
+  {| ps_map := [(1003%N, {| s_sh := wq 0 1; s_all := wq 7 1; s_acb := Some (wq 0 1) |});
+                (default_id, {| s_sh := wq 10 1; s_all := wq 3 1; s_acb := Some (wq 100 1) |})];
+     ps_all := wq 10 1; ps_latest := spouse_aff |}.
+Definition ex_later : list tx := [wrow 5 100 (wbuy 2 11) spouse_aff; wrow 6 101 (wsell 3 12) default_aff].
+Example C10_later_rows_nonvacuous :
+  snd (run_loop exact [] ex_s1 ex_later) = None
+  /\ length (fst (run_loop exact [] ex_s1 ex_later)) = 2%nat
+  /\ run_loop exact [wrow 0 1 (wbuy 1 1) default_aff] ex_s2 ex_later = run_loop exact [] ex_s1 ex_later.
+Proof. vm_compute. repeat split. Qed.
